@@ -242,6 +242,24 @@ static Registrar r09(new C09);
 
 // ===================================================================== C11
 // kinds: 0 compress default, 1 compress sequential, 2 decompress, 3 copy (-cdf)
+// More tiny blocks than unord_q (17W-3 entries) or order_q can hold: with a worker stalled on the in-order block the others run into
+// every reservation limit of the decompression scheduler (added after seeded changes C08-2/C11-2, which no older shape reached).
+static Bytes queue_filler(Rng &rng, int W, std::string *desc) {
+  int nb = 17 * W - 4 + (int)rng.below(16);
+  std::vector<bz::StreamSpec> ss(1 + rng.below(3));
+  if (rng.below(2)) { bz::BlockSpec bs; bs.plain = bz::random_block_plain(rng, 2000); bs.ntables = 2 + (int)rng.below(5); ss[0].blocks.push_back(bs); }
+  for (int b = 0; b < nb; b++) { bz::BlockSpec bs; bs.plain = bz::random_block_plain(rng, 1 + rng.below(24)); bs.ntables = 2; ss[rng.below(ss.size())].blocks.push_back(bs); }
+  for (auto &s : ss) s.level = 1 + (int)rng.below(9);
+  if (desc) *desc = "queue-filler " + std::to_string(nb) + " blocks";
+  return bz::genstream(ss, Bytes(), rng).bytes;
+}
+static void stall_a_worker(Rng &rng, RunCfg &r) {
+  static const uint32_t wm[] = {1u << sim::FC_PRIMARY, 1u << sim::FC_WORKER, 64, 128};
+  r.in_granul = 0;
+  if (rng.below(2)) { r.sched.policy = sim::P_STARVE; r.sched.param = wm[rng.below(4)]; r.sched.stall_k = 0; }
+  else { r.sched.stall_task = "retrieve"; r.sched.stall_k = 1 + (uint32_t)rng.below(3); r.sched.stall_len = 2000u << rng.below(4); }    // the worker that decodes one of the first blocks in stream order sleeps
+}
+
 struct C11 : Driver {
   const char *prop() const override { return "C11"; }
   const char *level() const override { return "exploration"; }
@@ -283,8 +301,12 @@ struct C11 : Driver {
       r = compress_cfg(rng, level, kind == 1, W, true);
     } else if (kind == 2) {
       Bytes plain; int validity;
-      int shape = (int)rng.below(6);
-      if (shape == 0) {   // many tiny blocks
+      int shape = (int)rng.below(7);
+      if (shape == 6) {   // queue filler
+        W = 2 + (int)rng.below(3);
+        c.data = queue_filler(rng, W, &c.data_desc);
+        c.p["filler"] = 1;
+      } else if (shape == 0) {   // many tiny blocks
         int nb = (int)rng.below(tier ? 61 : 30);
         std::vector<bz::StreamSpec> ss(1 + rng.below(3));
         for (int b = 0; b < nb; b++) { bz::BlockSpec bs; bs.plain = bz::random_block_plain(rng, 40); bs.ntables = 2 + (int)rng.below(3); ss[rng.below(ss.size())].blocks.push_back(bs); }
@@ -325,6 +347,7 @@ struct C11 : Driver {
     }
     // adversarial schedules over-weighted
     if (rng.below(2)) { r.sched.policy = sim::P_STARVE; r.sched.param = sim::starve_masks[rng.below(sim::n_starve_masks)]; }
+    if (c.p.count("filler") && rng.below(4)) stall_a_worker(rng, r);
     c.runs.push_back(r);
     return c;
   }
@@ -382,8 +405,11 @@ static Case gen_mixed(uint64_t seed, int tier, const char *prop, bool threads_on
     c.runs.push_back(decompress_cfg(rng, threads_only ? 2 + (int)rng.below(7) : random_workers(rng), true, c.data.size() / 2 + 100, c.data.size()));
   } else if (kind == 1) {
     Bytes plain; int validity;
-    c.data = some_compressed(rng, tier, &plain, &c.data_desc, &validity);
+    bool filler = rng.below(8) == 0;
+    if (filler) { W = 2 + (int)rng.below(3); c.data = queue_filler(rng, W, &c.data_desc); }
+    else c.data = some_compressed(rng, tier, &plain, &c.data_desc, &validity);
     c.runs.push_back(decompress_cfg(rng, W, true, c.data.size(), plain.size() + 1));
+    if (filler && rng.below(4)) stall_a_worker(rng, c.runs.back());
     if (rng.below(4) == 0) c.runs.back().argv.push_back("-t");
   } else if (kind == 2) {
     size_t G = rng.below(2) ? (4u << rng.below(10)) : 0;
